@@ -11,9 +11,20 @@
 //!    travels with the answer and changes when a threshold is overridden;
 //!  * bounded-exhaustive tier: all multisets (up to renaming of actors / evidence ids) of small
 //!    size over actors x evidence subsets x stances x confidences x {active, retracted}, every
-//!    distinct recording order.
+//!    distinct recording order;
+//!  * section `asof`: several subjects in one small Space, every assertion and lifecycle step its
+//!    own commit; the projection is read at past coordinates (`AS OF SEQ` / `TX` / `TIME`, request
+//!    bound to a snapshot token) and judged against the reference built from what had been
+//!    recorded about THAT proposition up to the coordinate (a never-asserted proposition is
+//!    `insufficient` at every coordinate, whatever was claimed about others);
+//!  * section `ingest`: the same multiset enters a Space through every ingestion path the engine
+//!    has (KML, Capsule import, isolated import + release; 1.x migration in `migrate`) with
+//!    confidences at and beyond the edges of the documented scale; a path may refuse (counted),
+//!    what it lets in must still obey the laws: scores in [0,1], never lower when confidences
+//!    rise, same assertions => same belief whatever the path.
 
-use anda_cognitive_nexus::CognitiveNexus;
+use anda_cognitive_nexus::{CognitiveNexus, nexus::DEFAULT_SPACE};
+use anda_kip::{Executor, Request, TopLevelStatus};
 use serde_json::{Map, Value, json};
 use std::cell::RefCell;
 use std::collections::{BTreeMap, BTreeSet};
@@ -503,6 +514,22 @@ struct Recorded {
 /// KML text + parameters creating assertion `a` about proposition handle/param `prop`.
 /// `tag` makes parameter names unique inside a batch.
 fn create_stmt(fx: &Fixture, a: &Asr, tag: &str, prop: &str, tuple: &str, p: &mut Map<String, Value>, rng: &mut Rng) -> String {
+    let conf = a.conf.map(|c| {
+        if rng.chance(1, 4) {
+            let name = format!("c{tag}");
+            p.insert(name.clone(), json!(c));
+            format!(":{name}")
+        } else {
+            format!("{c}")
+        }
+    });
+    create_stmt_with(fx, a, tag, prop, tuple, p, rng, conf)
+}
+
+/// As `create_stmt`, the confidence term (literal or parameter reference, None = not stated) given
+/// by the caller (`a.conf` is ignored).
+#[allow(clippy::too_many_arguments)]
+fn create_stmt_with(fx: &Fixture, a: &Asr, tag: &str, prop: &str, tuple: &str, p: &mut Map<String, Value>, rng: &mut Rng, conf: Option<String>) -> String {
     let mut ev_terms = vec![];
     for e in 0..N_EV {
         if a.ev & (1 << e) != 0 {
@@ -514,15 +541,6 @@ fn create_stmt(fx: &Fixture, a: &Asr, tag: &str, prop: &str, tuple: &str, p: &mu
     if let Some(act) = a.actor {
         p.insert(format!("a{act}"), idref(&fx.actors[act as usize]));
     }
-    let conf = a.conf.map(|c| {
-        if rng.chance(1, 4) {
-            let name = format!("c{tag}");
-            p.insert(name.clone(), json!(c));
-            format!(":{name}")
-        } else {
-            format!("{c}")
-        }
-    });
     let mut window = vec![];
     for (k, v) in [("from", a.from), ("until", a.until)] {
         if let Some(step) = v {
@@ -687,21 +705,74 @@ fn expected_policy(fx: &Fixture, q: &PolicyReq) -> PolicyDesc {
 
 /// Runs one belief query; returns the answers as (target value index, belief JSON).
 async fn ask(fx: &Fixture, rec: &Recorded, functional: bool, q: &Query) -> Result<Vec<(u8, Value)>, String> {
+    ask_in(&fx.nx, &fx.values, rec, functional, q, 0, None).await
+}
+
+/// How a read names the coordinate it is bound to.
+#[derive(Clone, Debug)]
+enum Coord {
+    Seq(u64),
+    SeqParam(u64),
+    Tx(String),
+    Time(String),
+    /// the request envelope's `read.snapshot_token` (the command itself has no AS OF)
+    Token(String),
+}
+impl Coord {
+    fn kind(&self) -> &'static str {
+        match self {
+            Coord::Seq(_) | Coord::SeqParam(_) => "SEQ",
+            Coord::Tx(_) => "TX",
+            Coord::Time(_) => "TIME",
+            Coord::Token(_) => "TOKEN",
+        }
+    }
+}
+
+const FOREIGN_SLOT: &str = "slot candidate is not a proposition of this subject";
+
+/// One command in a request bound to a snapshot token; requires success, returns the first result.
+async fn exec_bound_ok(nx: &CognitiveNexus, command: &str, params: &Value, token: &str) -> Result<Value, String> {
+    let mut op = json!({"command": command});
+    if params.as_object().map(|m| !m.is_empty()).unwrap_or(false) {
+        op["parameters"] = params.clone();
+    }
+    let request: Request = serde_json::from_value(json!({"kip": "2.0", "read": {"snapshot_token": token}, "operations": [op]}))
+        .map_err(|e| format!("request envelope: {e}"))?;
+    let parsed = request.operations[0].parse().map_err(|e| format!("parse error: {} {}", e.name(), e.message))?;
+    let r = nx.execute(parsed, &request, &request.operations[0]).await;
+    if r.status != TopLevelStatus::Succeeded {
+        return Err(format!("command failed (bound to snapshot token {token}): {command} params={params} -> {}", serde_json::to_string(&r).unwrap_or_default()));
+    }
+    Ok(r.first_result().cloned().unwrap_or(Value::Null))
+}
+
+/// The belief query `q` about value `target` of the recorded subject, in the Nexus `nx` whose
+/// value Concepts are `values`, optionally bound to a past coordinate.
+async fn ask_in(
+    nx: &CognitiveNexus,
+    values: &[String],
+    rec: &Recorded,
+    functional: bool,
+    q: &Query,
+    target: u8,
+    coord: Option<&Coord>,
+) -> Result<Vec<(u8, Value)>, String> {
     let mut p = Map::new();
-    let p0 = rec.props[0].as_ref().ok_or("no target proposition")?;
+    let pt = rec.props[target as usize].as_ref().ok_or("no target proposition")?;
     let body = match q.form {
         0 => {
-            p.insert("p".into(), json!(p0));
+            p.insert("p".into(), json!(pt));
             "FIND(?b) WHERE { ?b BELIEF (id: :p) }".to_string()
         }
         1 => {
             p.insert("s".into(), idref(&rec.subject));
-            p.insert("v".into(), idref(&fx.values[0]));
+            p.insert("v".into(), idref(&values[target as usize]));
             format!("FIND(?b) WHERE {{ ?p PROPOSITION (:s, \"{}\", :v) ?b BELIEF (?p) }}", pred(functional))
         }
         2 => {
             p.insert("s".into(), idref(&rec.subject));
-            p.insert("v".into(), idref(&fx.values[0]));
+            p.insert("v".into(), idref(&values[target as usize]));
             format!("FIND(?b) WHERE {{ ?b BELIEF (:s, \"{}\", :v) }}", pred(functional))
         }
         _ => {
@@ -710,12 +781,33 @@ async fn ask(fx: &Fixture, rec: &Recorded, functional: bool, q: &Query) -> Resul
         }
     };
     let mut cmd = body;
+    let mut token = None;
+    match coord {
+        None => {}
+        Some(Coord::Seq(n)) => cmd.push_str(&format!(" AS OF SEQ {n}")),
+        Some(Coord::SeqParam(n)) => {
+            p.insert("asof".into(), json!(n));
+            cmd.push_str(" AS OF SEQ :asof");
+        }
+        Some(Coord::Tx(t)) => {
+            p.insert("asof".into(), json!(t));
+            cmd.push_str(" AS OF TX :asof");
+        }
+        Some(Coord::Time(t)) => {
+            p.insert("asof".into(), json!(t));
+            cmd.push_str(" AS OF TIME :asof");
+        }
+        Some(Coord::Token(t)) => token = Some(t.clone()),
+    }
     if let Some(step) = q.at {
         p.insert("t".into(), json!(grid_time(step, q.spelling)));
         cmd.push_str(" FOR TIME :t");
     }
     cmd.push_str(&q.policy.clause());
-    let out = exec_ok(&fx.nx, &cmd, &Value::Object(p)).await?;
+    let out = match &token {
+        None => exec_ok(nx, &cmd, &Value::Object(p)).await?,
+        Some(t) => exec_bound_ok(nx, &cmd, &Value::Object(p), t).await?,
+    };
     let rows = out.as_array().ok_or("belief result is not an array")?;
     if rows.len() != 1 {
         return Err(format!("belief query returned {} rows: {cmd}", rows.len()));
@@ -725,12 +817,12 @@ async fn ask(fx: &Fixture, rec: &Recorded, functional: bool, q: &Query) -> Resul
         let mut v = vec![];
         for c in cands {
             let pid = c["proposition_id"].as_str().unwrap_or("");
-            let t = rec.props.iter().position(|x| x.as_deref() == Some(pid)).ok_or("slot candidate is not a proposition of this subject")?;
+            let t = rec.props.iter().position(|x| x.as_deref() == Some(pid)).ok_or_else(|| format!("{FOREIGN_SLOT}: {pid} in {cmd}"))?;
             v.push((t as u8, c.clone()));
         }
         Ok(v)
     } else {
-        Ok(vec![(0, rows[0].clone())])
+        Ok(vec![(target, rows[0].clone())])
     }
 }
 
@@ -823,6 +915,23 @@ fn judge(
     ctx: &dyn Fn() -> Value,
     st: &mut Stats,
 ) {
+    judge_with(a, r, q, base_id, base_version, ctx, st, true)
+}
+
+/// `scores == false`: the multiset holds a confidence outside the documented scale; what the
+/// score of such a record should be is not stated by the property, so only the parts of the answer
+/// that do not depend on confidences (ledgers, exclusions, grouping, policy identity) are compared.
+#[allow(clippy::too_many_arguments)]
+fn judge_with(
+    a: &Parsed,
+    r: &RefAns,
+    q: &Query,
+    base_id: &str,
+    base_version: &Value,
+    ctx: &dyn Fn() -> Value,
+    st: &mut Stats,
+    scores: bool,
+) {
     st.eval();
     st.count("ref_comparisons");
     let fail = |st: &mut Stats, what: &str, d: Value| {
@@ -878,6 +987,10 @@ fn judge(
     }
     if a.sup_groups as usize != r.sup_groups || a.opp_groups as usize != r.opp_groups {
         fail(st, "independent_groups", json!({"got": [a.sup_groups, a.opp_groups], "expected": [r.sup_groups, r.opp_groups]}));
+    }
+    if !scores {
+        st.count("ref_scores_skipped_confidence_outside_the_scale");
+        return;
     }
     if (a.sup_score - r.sup_score).abs() > 1e-9 || (a.opp_score - r.opp_score).abs() > 1e-9 {
         fail(st, "score", json!({"got": [a.sup_score, a.opp_score], "expected": [r.sup_score, r.opp_score]}));
@@ -1587,6 +1700,1116 @@ fn enumerate_batches(alpha: &Alphabet, n: usize, threads: usize) -> (usize, Vec<
     (multisets, batches)
 }
 
+// ---------------------------------------------------------------------------------------------
+// section `asof`: the projection read at a past coordinate
+//
+// Several subjects (each with its three value Propositions, asserted or not) share one small Space.
+// Every assertion and every lifecycle step is its own commit, interleaved across the subjects. A
+// belief read bound to the coordinate of commit c is judged against the reference built from the
+// assertions about THAT subject's Propositions that had been recorded up to c, in the lifecycle
+// state they had at c. At a coordinate the engine cannot use its present-time indexes, so which
+// assertions are "about" a Proposition is decided by another code path than for a read of the
+// present.
+
+struct Receipt {
+    seq: u64,
+    tx: String,
+    at: String,
+    result: Value,
+}
+
+/// Executes a write and returns its receipt (Space sequence, transaction id, commit time).
+async fn commit(nx: &CognitiveNexus, cmd: &str, params: &Value) -> Result<Receipt, String> {
+    let r = exec(nx, cmd, params).await?;
+    let j = response_json(&r);
+    if j["status"] != "succeeded" {
+        return Err(format!("command failed: {cmd} params={params} -> {j}"));
+    }
+    Ok(Receipt {
+        seq: j["receipt"]["space_seq"].as_u64().ok_or_else(|| format!("no space_seq in the receipt of {cmd}: {}", j["receipt"]))?,
+        tx: j["receipt"]["tx_id"].as_str().unwrap_or("").to_string(),
+        at: j["receipt"]["committed_at"].as_str().unwrap_or("").to_string(),
+        result: j["results"][0]["result"].clone(),
+    })
+}
+
+struct HCoord {
+    seq: u64,
+    tx: String,
+    at: String,
+    /// per subject, per assertion: recorded / lifecycle step applied at this coordinate
+    created: Vec<Vec<bool>>,
+    applied: Vec<Vec<bool>>,
+    token: Option<String>,
+    what: String,
+}
+
+/// Every assertion id an answer mentions.
+fn ids_in_answer(b: &Value) -> Vec<String> {
+    let mut v = vec![];
+    for l in [&b["support"]["assertion_ids"], &b["opposition"]["assertion_ids"], &b["explanation"]["uncertain_assertions"]] {
+        for x in l.as_array().into_iter().flatten() {
+            v.extend(x.as_str().map(str::to_string));
+        }
+    }
+    for e in b["explanation"]["excluded"].as_array().into_iter().flatten() {
+        v.extend(e["assertion_id"].as_str().map(str::to_string));
+    }
+    v
+}
+
+fn asof_case(case: u64, rng: &mut Rng, st: &mut Stats, thorough: bool) {
+    let k = 2 + rng.usize(3);
+    let mut subs: Vec<(Vec<Asr>, bool)> = vec![];
+    for s in 0..k {
+        if s == 0 && rng.bool() {
+            // a subject nobody ever says anything about
+            subs.push((vec![], rng.bool()));
+            continue;
+        }
+        loop {
+            let (a, f) = gen_case(rng);
+            if a.len() <= 6 {
+                subs.push((a, f));
+                break;
+            }
+        }
+    }
+    if subs.iter().all(|(a, _)| a.is_empty()) {
+        subs[k - 1] = (vec![Asr::simple(0, 0, Stance::Support, 0.8, Life::Active), Asr::simple(1, 0, Stance::Support, 0.6, Life::Active)], false);
+    }
+    let res = vcore::run::block_on(asof_inner(case, &subs, rng, st, thorough));
+    if let Err(e) = res {
+        st.inconclusive(format!("C20 asof case {case}: {e}"));
+    }
+    st.sample(|| json!({"monitor": "asof", "case": case, "subjects": subs.iter().map(|(a, f)| case_json(a, *f)).collect::<Vec<_>>()}));
+}
+
+async fn asof_inner(case: u64, subs: &[(Vec<Asr>, bool)], rng: &mut Rng, st: &mut Stats, thorough: bool) -> Result<(), String> {
+    // a small Space of its own: a read at a coordinate reconstructs every Assertion of the Space
+    let fx = new_fixture().await?;
+    let k = subs.len();
+    let mut cmd = String::from("MUTATE {\n");
+    let mut p = Map::new();
+    for v in 0..N_VAL {
+        p.insert(format!("v{v}"), idref(&fx.values[v]));
+    }
+    for (s, (_, functional)) in subs.iter().enumerate() {
+        cmd.push_str(&format!("CREATE CONCEPT ?s{s} {{ TYPE \"Service\" NAME \"subject h{case}-{s}\" }}\n"));
+        for v in 0..N_VAL {
+            cmd.push_str(&format!("ENSURE PROPOSITION ?p{s}_{v} (?s{s}, \"{}\", :v{v})\n", pred(*functional)));
+        }
+    }
+    cmd.push('}');
+    let r0 = commit(&fx.nx, &cmd, &Value::Object(p)).await?;
+    let handle = |r: &Receipt, name: String| -> Result<String, String> {
+        r.result["handles"][&name].as_str().map(str::to_string).ok_or(format!("no handle {name}"))
+    };
+    let mut subjects = vec![];
+    let mut props: Vec<Vec<Option<String>>> = vec![];
+    for s in 0..k {
+        subjects.push(handle(&r0, format!("s{s}"))?);
+        props.push((0..N_VAL).map(|v| handle(&r0, format!("p{s}_{v}")).map(Some)).collect::<Result<_, _>>()?);
+    }
+    let mut created: Vec<Vec<bool>> = subs.iter().map(|(a, _)| vec![false; a.len()]).collect();
+    let mut applied: Vec<Vec<bool>> = created.clone();
+    let mut ids: Vec<Vec<String>> = subs.iter().map(|(a, _)| vec![String::new(); a.len()]).collect();
+    let mut coords = vec![HCoord { seq: r0.seq, tx: r0.tx.clone(), at: r0.at.clone(), created: created.clone(), applied: applied.clone(), token: None, what: "subjects and propositions created, nothing asserted".into() }];
+    // the history: one commit per event
+    loop {
+        // (subject, assertion, lifecycle step?)
+        let mut enabled: Vec<(usize, usize, bool)> = vec![];
+        for (s, (asrs, _)) in subs.iter().enumerate() {
+            for (i, a) in asrs.iter().enumerate() {
+                if !created[s][i] {
+                    enabled.push((s, i, false));
+                } else if a.life != Life::Active && !applied[s][i] && !matches!(a.life, Life::Superseded(j) if !created[s][j]) {
+                    enabled.push((s, i, true));
+                }
+            }
+        }
+        if enabled.is_empty() {
+            break;
+        }
+        let (s, i, step) = *rng.pick(&enabled);
+        let (asrs, functional) = &subs[s];
+        let a = &asrs[i];
+        let r = if !step {
+            let mut p = Map::new();
+            p.insert("s".into(), idref(&subjects[s]));
+            p.insert(format!("v{}", a.tgt), idref(&fx.values[a.tgt as usize]));
+            p.insert("p".into(), idref(props[s][a.tgt as usize].as_ref().unwrap()));
+            let tuple = format!("(:s, \"{}\", :v{})", pred(*functional), a.tgt);
+            let stmt = create_stmt(&fx, a, "h", ":p", &tuple, &mut p, rng);
+            let r = commit(&fx.nx, &stmt, &Value::Object(p)).await?;
+            ids[s][i] = handle(&r, "xh".into())?;
+            created[s][i] = true;
+            st.count("asof_commits_assertion");
+            r
+        } else {
+            let r = match a.life {
+                Life::Retracted => commit(&fx.nx, "RETRACT ASSERTION :a", &json!({"a": ids[s][i]})).await?,
+                Life::Superseded(j) => commit(&fx.nx, "SUPERSEDE ASSERTION :old BY :new", &json!({"old": ids[s][i], "new": ids[s][j]})).await?,
+                _ => commit(&fx.nx, "ARCHIVE :a", &json!({"a": ids[s][i]})).await?,
+            };
+            applied[s][i] = true;
+            st.count("asof_commits_lifecycle");
+            r
+        };
+        coords.push(HCoord {
+            seq: r.seq, tx: r.tx, at: r.at, created: created.clone(), applied: applied.clone(), token: None,
+            what: format!("subject {s}: {} #{i} {}", if step { format!("{:?} of", a.life) } else { "recorded".to_string() }, a.desc()),
+        });
+    }
+    // something unrelated happens afterwards, so every coordinate of the case lies in the past
+    let r = commit(&fx.nx, &format!("CREATE CONCEPT ?x {{ TYPE \"Person\" NAME \"bystander h{case}\" }}"), &Value::Null).await?;
+    coords.push(HCoord { seq: r.seq, tx: r.tx, at: r.at, created: created.clone(), applied: applied.clone(), token: None, what: "an unrelated Concept created".into() });
+    if coords.windows(2).any(|w| w[1].seq <= w[0].seq) {
+        return Err("commit sequence numbers do not ascend".into());
+    }
+    let history: Vec<String> = coords.iter().map(|c| format!("seq {}: {}", c.seq, c.what)).collect();
+
+    // the reads
+    let n_coords = coords.len();
+    let mut chosen: Vec<usize> = (0..n_coords).collect();
+    rng.shuffle(&mut chosen);
+    chosen.truncate(if thorough { 10 } else { 5 });
+    for must in [0, n_coords - 2] {
+        if !chosen.contains(&must) {
+            chosen.push(must);
+        }
+    }
+    for ci in chosen {
+        // AS OF TIME names the last commit at or before the instant: usable when the next commit
+        // carries a later timestamp
+        let time_unique = !coords[ci].at.is_empty() && coords.get(ci + 1).map(|n| n.at.as_str() > coords[ci].at.as_str()).unwrap_or(true);
+        let (c_seq, c_tx, c_at) = (coords[ci].seq, coords[ci].tx.clone(), coords[ci].at.clone());
+        for s in 0..k {
+            let (asrs, functional) = &subs[s];
+            let (model, rec, others_asserted, past_differs) = {
+                let c = &coords[ci];
+                let members: Vec<usize> = (0..asrs.len()).filter(|i| c.created[s][*i]).collect();
+                let model: Vec<Asr> = members.iter().map(|i| Asr { life: if c.applied[s][*i] { asrs[*i].life } else { Life::Active }, ..asrs[*i].clone() }).collect();
+                let rec = Recorded { subject: subjects[s].clone(), props: props[s].clone(), ids: members.iter().map(|i| ids[s][*i].clone()).collect() };
+                let others_asserted = (0..k).any(|o| o != s && c.created[o].iter().any(|x| *x));
+                let past_differs = c.created[s] != created[s] || c.applied[s] != applied[s];
+                (model, rec, others_asserted, past_differs)
+            };
+            let mut reads: Vec<(u8, Query)> = vec![];
+            for t in 0..N_VAL as u8 {
+                if thorough || rng.chance(2, 3) {
+                    let mut q = gen_query(rng);
+                    if q.form == 3 {
+                        q.form = rng.below(3) as u8;
+                    }
+                    reads.push((t, q));
+                }
+            }
+            if rng.bool() {
+                let mut q = gen_query(rng);
+                q.form = 3;
+                reads.push((0, q));
+            }
+            for (t, q) in reads {
+                let coord = match rng.weighted(&[25, 15, 20, if time_unique { 20 } else { 0 }, 20]) {
+                    0 => Coord::Seq(c_seq),
+                    1 => Coord::SeqParam(c_seq),
+                    2 => Coord::Tx(c_tx.clone()),
+                    3 => Coord::Time(c_at.clone()),
+                    _ => {
+                        if coords[ci].token.is_none() {
+                            let snap = exec_ok(&fx.nx, &format!("SNAPSHOT AS OF SEQ {c_seq}"), &Value::Null).await?;
+                            coords[ci].token = Some(snap["snapshot_token"].as_str().ok_or("SNAPSHOT hands out no snapshot_token")?.to_string());
+                        }
+                        Coord::Token(coords[ci].token.clone().unwrap())
+                    }
+                };
+                if !time_unique {
+                    st.count("asof_time_form_unusable_equal_commit_timestamps");
+                }
+                let pol = expected_policy(&fx, &q.policy);
+                let base = match q.policy.name {
+                    Some("forecast") | Some("kip:policy:forecast") => &fx.policies["forecast"],
+                    _ => &fx.policies["baseline"],
+                };
+                let answers = match ask_in(&fx.nx, &fx.values, &rec, *functional, &q, t, Some(&coord)).await {
+                    Ok(a) => a,
+                    Err(e) if e.contains(FOREIGN_SLOT) => {
+                        st.violation("C20/asof/slot_lists_proposition_of_another_subject", json!({"case": case, "history": history, "coordinate": format!("{coord:?}"), "subject": s, "error": e}));
+                        continue;
+                    }
+                    Err(e) => return Err(e),
+                };
+                st.count("asof_reads");
+                st.count(&format!("asof_reads_named_by_{}", coord.kind()));
+                st.count(&format!("asof_reads_query_form_{}", q.form));
+                for (tgt, b) in answers {
+                    let ctx = || json!({"case": case, "history": history, "coordinate": {"seq": c_seq, "named_as": format!("{coord:?}")}, "subject": s, "target_value": tgt,
+                        "recorded_about_this_subject_at_the_coordinate": case_json(&model, *functional), "query": format!("{q:?}"), "answer": b});
+                    st.count("asof_answers");
+                    if others_asserted {
+                        st.count("asof_answers_with_assertions_about_other_subjects_in_the_space");
+                    }
+                    if past_differs {
+                        st.count("asof_answers_where_the_subject_changed_afterwards");
+                    }
+                    // a belief at a coordinate is built from assertions about THIS proposition (or a
+                    // functional rival) that existed at the coordinate
+                    let mut foreign = false;
+                    for id in ids_in_answer(&b) {
+                        if rec.ids.contains(&id) {
+                            continue;
+                        }
+                        foreign = true;
+                        let sig = if ids[s].contains(&id) {
+                            "C20/asof/belief_counts_assertion_recorded_after_the_coordinate"
+                        } else if ids.iter().any(|l| l.contains(&id)) {
+                            "C20/asof/belief_counts_assertion_about_another_subject"
+                        } else {
+                            "C20/asof/belief_names_unknown_assertion"
+                        };
+                        st.violation(sig, json!({"assertion": id, "context": ctx()}));
+                    }
+                    // silence: nothing was ever recorded about this value (nor, for a single-valued
+                    // predicate, about a rival value) up to the coordinate
+                    let silent = if *functional { model.is_empty() } else { !model.iter().any(|a| a.tgt == tgt) };
+                    if silent {
+                        st.count("asof_never_asserted_answers");
+                        if others_asserted {
+                            st.count("asof_never_asserted_answers_while_others_are_asserted");
+                        }
+                        if b["status"] != "insufficient" {
+                            st.violation("C20/asof/never_asserted_proposition_not_insufficient", json!({"status": b["status"], "context": ctx()}));
+                            continue;
+                        }
+                    }
+                    if foreign {
+                        continue;
+                    }
+                    let a = match parse_answer(&b, &rec) {
+                        Ok(a) => a,
+                        Err(e) => {
+                            st.violation("C20/answer_malformed", json!({"error": e, "context": ctx()}));
+                            continue;
+                        }
+                    };
+                    laws(&a, &ctx, st);
+                    let r = reference(&model, *functional, tgt, q.at, &pol);
+                    judge(&a, &r, &q, &base.id, &base.version, &ctx, st);
+                }
+            }
+        }
+    }
+    Ok(())
+}
+
+// ---------------------------------------------------------------------------------------------
+// section `ingest`: every way an Assertion enters a Space, confidences at and beyond the scale
+//
+// One structure (actors, evidence, stances, modes, lifecycle) and a chain of confidence vectors
+// v0 <= v1 <= ... (pointwise; an assertion is either never given a number or given ascending ones
+// drawn from a palette that crosses both ends of [0,1]). Each vector enters a Space through
+//   capsule   EXPORT CAPSULE of the structure -> the artifact's `confidence` members rewritten ->
+//             capsule::parse -> payload_digest -> import_capsule (another Nexus);
+//   isolated  the same through import_capsule_isolated, then every element released;
+//   kml       CREATE ASSERTION / ASSERT with the value as literal or parameter.
+// A path may refuse a value (counted per class of value). What it lets in is read back
+// (`?a.confidence`: the number the Space says the assertion carries, null = none stated) and the
+// projection is judged by the laws of the property: scores within [0,1]; the same structure with
+// pointwise higher (read-back) confidences never scores lower, and its grouping does not change;
+// the same assertions project the same belief whichever path they came by. Where every read-back
+// confidence is inside the scale the full reference comparison applies as well.
+
+/// What the artifact / statement carries in the place of the confidence.
+#[derive(Clone, Debug, PartialEq)]
+enum Raw {
+    Absent,
+    Null,
+    Num(f64),
+    Text,
+    Bool,
+    /// a token that is no finite number (spliced into the artifact / statement text as written)
+    Exotic(&'static str),
+}
+
+fn raw_class(r: &Raw) -> &'static str {
+    match r {
+        Raw::Absent => "absent",
+        Raw::Null => "null",
+        Raw::Text => "string",
+        Raw::Bool => "bool",
+        Raw::Exotic(_) => "not_a_finite_number",
+        Raw::Num(x) if *x < 0.0 => "negative",
+        Raw::Num(x) if *x == 0.0 => "zero",
+        Raw::Num(x) if *x < 1.0 => "inside",
+        Raw::Num(x) if *x == 1.0 => "one",
+        Raw::Num(x) if *x <= 1.001 => "just_above_one",
+        Raw::Num(x) if *x <= 100.0 => "above_one",
+        Raw::Num(_) => "huge",
+    }
+}
+
+/// Inside the documented scale (or not stated at all): every path has to accept it.
+fn raw_in_scale(r: &Raw) -> bool {
+    match r {
+        Raw::Absent | Raw::Null => true,
+        Raw::Num(x) => (0.0..=1.0).contains(x),
+        _ => false,
+    }
+}
+
+const STATED: [f64; 14] = [0.0, 1e-12, 0.2, 0.45, 0.6, 0.8, 0.95, 1.0, 1.0000000000000002, 1.0000001, 1.4, 2.0, 60.0, 1e308];
+const STATED_W: [u32; 14] = [6, 2, 8, 8, 10, 10, 6, 12, 5, 5, 12, 10, 4, 2];
+
+fn gen_chain(rng: &mut Rng, len: usize) -> Vec<Raw> {
+    match rng.weighted(&[6, 8, 4, 80, 2]) {
+        0 => vec![Raw::Absent; len],
+        4 => vec![Raw::Exotic(*rng.pick(&["1e400", "-1e400", "NaN", "Infinity"])); len],
+        // below the scale: the engine's own sentinel for "none stated" is negative
+        1 => (0..len).map(|_| Raw::Num(*rng.pick(&[-1.0, -0.5, -2.0, -1e-9, -60.0]))).collect(),
+        2 => vec![[Raw::Null, Raw::Text, Raw::Bool][rng.usize(3)].clone(); len],
+        _ => {
+            let mut v: Vec<f64> = (0..len).map(|_| STATED[rng.weighted(&STATED_W)]).collect();
+            v.sort_by(|a, b| a.partial_cmp(b).unwrap());
+            v.into_iter().map(Raw::Num).collect()
+        }
+    }
+}
+
+fn gen_ingest_structure(rng: &mut Rng) -> (Vec<Asr>, bool) {
+    let functional = rng.chance(1, 3);
+    let n = 2 + rng.usize(4);
+    let mut v = vec![];
+    for i in 0..n {
+        let mut ev = 0u8;
+        for e in 0..3 {
+            if rng.chance(1, 4) {
+                ev |= 1 << e;
+            }
+        }
+        let tgt = if i > 0 && functional && rng.chance(1, 4) { 1 } else { 0 };
+        v.push(Asr {
+            // the import path requires an assertor
+            actor: Some(rng.below(3) as u8),
+            ev,
+            tgt,
+            stance: if tgt == 1 { Stance::Support } else { [Stance::Support, Stance::Reject, Stance::Uncertain][rng.weighted(&[60, 35, 5])] },
+            conf: None,
+            mode: rng.weighted(&[40, 30, 10, 10, 5, 5]),
+            from: None,
+            until: None,
+            life: if rng.chance(1, 8) { Life::Retracted } else { Life::Active },
+            sugar: rng.chance(1, 3),
+            challenge: 0,
+        });
+    }
+    (v, functional)
+}
+
+/// One multiset as it sits in one Space after one ingestion path.
+struct Inst {
+    path: &'static str,
+    variant: usize,
+    /// indexes (into the structure) of the assertions the path let in
+    members: Vec<usize>,
+    /// the members, `conf` = what the Space reads back
+    model: Vec<Asr>,
+    rec: Recorded,
+    /// per fixed query: the answer about the target value
+    answers: Vec<Option<Parsed>>,
+}
+
+thread_local! {
+    /// the Nexus Capsules are imported into (recycled), with the number of imports so far
+    static DEST: RefCell<Option<(CognitiveNexus, usize)>> = const { RefCell::new(None) };
+}
+
+/// Status implied by the scores the answer itself reports, under the thresholds of its policy.
+fn status_from_reported(a: &Parsed, pol: &PolicyDesc) -> Option<&'static str> {
+    for s in [a.sup_score, a.opp_score] {
+        if !(0.0..=1.0).contains(&s) {
+            return None;
+        }
+        if (s - pol.accept).abs() < 1e-9 || (s - pol.material).abs() < 1e-9 {
+            return None;
+        }
+    }
+    if a.sup.is_empty() && a.opp.is_empty() {
+        return None;
+    }
+    Some(if a.sup_score >= pol.accept && a.opp_score < pol.material {
+        "accepted"
+    } else if a.opp_score >= pol.accept && a.sup_score < pol.material {
+        "rejected"
+    } else if a.sup_score >= pol.material && a.opp_score >= pol.material {
+        "contested"
+    } else {
+        "uncertain"
+    })
+}
+
+/// Reads the instance back and judges its answers; fills `model[..].conf` and `answers`.
+#[allow(clippy::too_many_arguments)]
+async fn evaluate_instance(
+    nx: &CognitiveNexus,
+    values: &[String],
+    fx: &Fixture,
+    inst: &mut Inst,
+    functional: bool,
+    queries: &[Query],
+    case: u64,
+    raws: &[Raw],
+    st: &mut Stats,
+) -> Result<(), String> {
+    for (k, a) in inst.model.iter_mut().enumerate() {
+        let out = exec_ok(nx, "FIND(?a.confidence) WHERE { ?a ASSERTION {id: :x} }", &json!({"x": inst.rec.ids[k]})).await?;
+        let row = out.as_array().filter(|r| r.len() == 1).ok_or_else(|| format!("reading back the confidence of {} returned {out}", inst.rec.ids[k]))?;
+        a.conf = row[0].as_f64();
+        if !row[0].is_null() && a.conf.is_none() {
+            return Err(format!("the confidence of {} reads back as {}", inst.rec.ids[k], row[0]));
+        }
+        let class = match a.conf {
+            None => "none_stated",
+            Some(c) if c < 0.0 => "negative",
+            Some(c) if c <= 1.0 => "inside_the_scale",
+            Some(_) => "above_one",
+        };
+        st.count(&format!("ingest_{}_reads_back_{class}", inst.path));
+    }
+    let in_scale = inst.model.iter().all(|a| a.conf.map(|c| (0.0..=1.0).contains(&c)).unwrap_or(true));
+    st.count(&format!("ingest_instances_{}", inst.path));
+    st.count(if in_scale { "ingest_instances_inside_the_scale" } else { "ingest_instances_with_confidence_outside_the_scale" });
+    for q in queries {
+        let pol = expected_policy(fx, &q.policy);
+        let base = match q.policy.name {
+            Some("forecast") | Some("kip:policy:forecast") => &fx.policies["forecast"],
+            _ => &fx.policies["baseline"],
+        };
+        let mut kept = None;
+        for (tgt, b) in ask_in(nx, values, &inst.rec, functional, q, 0, None).await? {
+            let ctx = || json!({"case": case, "path": inst.path, "variant": inst.variant, "confidences_as_ingested": format!("{raws:?}"),
+                "assertions_in_the_space_with_confidence_as_read_back": case_json(&inst.model, functional), "query": format!("{q:?}"), "target_value": tgt, "answer": b});
+            let a = match parse_answer(&b, &inst.rec) {
+                Ok(a) => a,
+                Err(e) => {
+                    st.violation("C20/answer_malformed", json!({"error": e, "context": ctx()}));
+                    continue;
+                }
+            };
+            st.count("ingest_answers_judged");
+            laws(&a, &ctx, st);
+            let r = reference(&inst.model, functional, tgt, None, &pol);
+            judge_with(&a, &r, q, &base.id, &base.version, &ctx, st, in_scale);
+            if !in_scale {
+                if let Some(exp) = status_from_reported(&a, &pol) {
+                    if exp != a.status {
+                        st.violation("C20/ingest/status_inconsistent_with_reported_scores", json!({"expected": exp, "context": ctx()}));
+                    }
+                }
+                // informational: does the score equal the one of the same multiset with every
+                // confidence cut to the scale?
+                st.count(if (a.sup_score - r.sup_score).abs() <= 1e-9 && (a.opp_score - r.opp_score).abs() <= 1e-9 {
+                    "ingest_outside_scale_score_equals_clamped_reference"
+                } else {
+                    "ingest_outside_scale_score_differs_from_clamped_reference"
+                });
+            }
+            if tgt == 0 {
+                kept = Some(a);
+            }
+        }
+        inst.answers.push(kept);
+    }
+    Ok(())
+}
+
+fn restricted(asrs: &[Asr], ids: &[Option<String>]) -> (Vec<usize>, Vec<Asr>, Vec<String>) {
+    let members: Vec<usize> = (0..asrs.len()).filter(|i| ids[*i].is_some()).collect();
+    (members.clone(), members.iter().map(|i| asrs[*i].clone()).collect(), members.iter().map(|i| ids[*i].clone().unwrap()).collect())
+}
+
+/// Rewrites the exported artifact to carry `raws`, seals it, imports it into `dest`.
+/// `Ok(None)`: the path refused (counted).
+#[allow(clippy::too_many_arguments)]
+async fn import_variant(
+    fx: &Fixture,
+    dest: &CognitiveNexus,
+    artifact: &Value,
+    src: &Recorded,
+    asrs: &[Asr],
+    raws: &[Raw],
+    path: &'static str,
+    variant: usize,
+    tag: &str,
+    st: &mut Stats,
+) -> Result<Option<(Inst, Vec<String>)>, String> {
+    let mut art = artifact.clone();
+    for a in art["payload"]["records"]["assertions"].as_array_mut().ok_or("the export carries no assertions")? {
+        let id = a["id"].as_str().unwrap_or("").to_string();
+        let i = src.ids.iter().position(|x| *x == id).ok_or_else(|| format!("the export carries {id}, which is not an assertion of this case"))?;
+        let o = a.as_object_mut().ok_or("assertion record is not an object")?;
+        match &raws[i] {
+            Raw::Absent => {
+                o.remove("confidence");
+            }
+            Raw::Null => {
+                o.insert("confidence".into(), Value::Null);
+            }
+            Raw::Num(x) => {
+                o.insert("confidence".into(), json!(x));
+            }
+            Raw::Text => {
+                o.insert("confidence".into(), json!("0.9"));
+            }
+            Raw::Bool => {
+                o.insert("confidence".into(), json!(true));
+            }
+            Raw::Exotic(_) => {
+                o.insert("confidence".into(), json!(format!("@@RAW{i}@@")));
+            }
+        }
+    }
+    let mut text = art.to_string();
+    for (i, r) in raws.iter().enumerate() {
+        if let Raw::Exotic(t) = r {
+            text = text.replace(&format!("\"@@RAW{i}@@\""), t);
+        }
+    }
+    for r in raws {
+        st.count(&format!("ingest_{path}_attempt_{}", raw_class(r)));
+    }
+    let all_in_scale = raws.iter().all(raw_in_scale);
+    st.count(if all_in_scale { "ingest_capsules_inside_the_scale" } else { "ingest_capsules_with_confidence_outside_the_scale" });
+    let mut cap = match anda_cognitive_nexus::capsule::parse(&text) {
+        Ok(c) => c,
+        Err(e) if all_in_scale => return Err(format!("capsule::parse refuses a rewritten export inside the scale: {}", e.message)),
+        Err(_) => {
+            st.count(&format!("ingest_{path}_refused_at_parse"));
+            for r in raws.iter().filter(|r| matches!(r, Raw::Exotic(_))) {
+                st.count(&format!("ingest_{path}_refused_{}", raw_class(r)));
+            }
+            return Ok(None);
+        }
+    };
+    // every artifact of the run is a different one (an import of the same artifact resolves to
+    // the elements of the first)
+    cap.payload.extensions.insert("verif".into(), json!(tag));
+    cap.integrity.content_digest = anda_cognitive_nexus::capsule::payload_digest(&cap.payload).map_err(|e| format!("payload_digest: {}", e.message))?;
+    let rep = if path == "isolated" { dest.import_capsule_isolated(&cap, DEFAULT_SPACE).await } else { dest.import_capsule(&cap, DEFAULT_SPACE).await };
+    let rep = match rep {
+        Ok(r) => r,
+        Err(e) if all_in_scale => return Err(format!("import of a capsule inside the scale failed: {} {}", e.name(), e.message)),
+        Err(_) => {
+            st.count(&format!("ingest_{path}_refused_at_import"));
+            for r in raws.iter().filter(|r| !raw_in_scale(r)) {
+                st.count(&format!("ingest_{path}_refused_{}", raw_class(r)));
+            }
+            return Ok(None);
+        }
+    };
+    st.count(&format!("ingest_{path}_imports"));
+    let m = |s: &String| rep.mapping.get(s).cloned();
+    let ids: Vec<Option<String>> = src.ids.iter().map(m).collect();
+    if ids.iter().any(|x| x.is_none()) {
+        st.count("ingest_assertions_not_carried_by_the_export");
+    }
+    let (members, model, ids) = restricted(asrs, &ids);
+    let rec = Recorded {
+        subject: m(&src.subject).ok_or("the import maps no subject")?,
+        props: src.props.iter().map(|p| p.as_ref().and_then(m)).collect(),
+        ids,
+    };
+    if path == "isolated" {
+        // nothing recalls, projects or acts on an isolated import until somebody releases it
+        let q = Query { at: None, spelling: 0, policy: PolicyReq::default(), form: 0 };
+        match ask_in(dest, &[], &rec, false, &q, 0, None).await {
+            Ok(ans) => {
+                for (_, b) in ans {
+                    st.count("ingest_isolated_read_before_release");
+                    let n = [&b["support"]["assertion_ids"], &b["opposition"]["assertion_ids"], &b["explanation"]["uncertain_assertions"]]
+                        .iter()
+                        .map(|l| l.as_array().map(|x| x.len()).unwrap_or(0))
+                        .sum::<usize>();
+                    if n > 0 || b["status"] != "insufficient" {
+                        st.violation("C20/ingest/quarantined_import_contributes_before_release", json!({"variant": variant, "answer": b}));
+                    }
+                }
+            }
+            Err(_) => st.count("ingest_isolated_read_before_release_refused"),
+        }
+        let session = dest.system_session();
+        for d in rep.mapping.values() {
+            let id: anda_cognitive_nexus::id::ElementId = d.parse().map_err(|_| format!("identity map holds {d}"))?;
+            session.release_quarantine(DEFAULT_SPACE, id).await.map_err(|e| format!("release of {d}: {} {}", e.name(), e.message))?;
+        }
+    }
+    let values: Vec<String> = fx.values.iter().map(|v| m(v).unwrap_or_default()).collect();
+    Ok(Some((Inst { path, variant, members, model, rec, answers: vec![] }, values)))
+}
+
+/// Records the structure through KML with `raws` as confidences, each assertion its own
+/// statement; refused statements are counted and left out of the instance.
+async fn kml_variant(fx: &mut Fixture, asrs: &[Asr], functional: bool, raws: &[Raw], variant: usize, rng: &mut Rng, st: &mut Stats) -> Result<Inst, String> {
+    fx.used += 1;
+    let mut targets: BTreeSet<u8> = asrs.iter().map(|a| a.tgt).collect();
+    targets.insert(0);
+    let mut cmd = format!("MUTATE {{\nCREATE CONCEPT ?s {{ TYPE \"Service\" NAME \"subject {}-{}\" }}\n", fx.serial, fx.used);
+    let mut p = Map::new();
+    for t in &targets {
+        p.insert(format!("v{t}"), idref(&fx.values[*t as usize]));
+        cmd.push_str(&format!("ENSURE PROPOSITION ?p{t} (?s, \"{}\", :v{t})\n", pred(functional)));
+    }
+    cmd.push('}');
+    let r = exec_ok(&fx.nx, &cmd, &Value::Object(p)).await?;
+    let subject = r["handles"]["s"].as_str().ok_or("no subject handle")?.to_string();
+    let mut props: Vec<Option<String>> = vec![None; N_VAL];
+    for t in &targets {
+        props[*t as usize] = r["handles"][format!("p{t}")].as_str().map(str::to_string);
+    }
+    let mut order: Vec<usize> = (0..asrs.len()).collect();
+    rng.shuffle(&mut order);
+    let mut ids: Vec<Option<String>> = vec![None; asrs.len()];
+    for i in order {
+        let a = &asrs[i];
+        let mut p = Map::new();
+        p.insert("s".into(), idref(&subject));
+        p.insert(format!("v{}", a.tgt), idref(&fx.values[a.tgt as usize]));
+        p.insert("p".into(), idref(props[a.tgt as usize].as_ref().unwrap()));
+        let conf = match &raws[i] {
+            Raw::Absent => None,
+            Raw::Null => Some("null".to_string()),
+            Raw::Text => Some("\"0.9\"".to_string()),
+            Raw::Bool => Some("true".to_string()),
+            Raw::Exotic(t) => Some(t.to_string()),
+            Raw::Num(x) => Some(if rng.chance(1, 3) || x.abs() < 1e-6 && *x != 0.0 || x.abs() > 1e15 {
+                p.insert("ck".into(), json!(x));
+                ":ck".to_string()
+            } else {
+                format!("{x:?}")
+            }),
+        };
+        let tuple = format!("(:s, \"{}\", :v{})", pred(functional), a.tgt);
+        let stmt = create_stmt_with(fx, a, "k", ":p", &tuple, &mut p, rng, conf);
+        let class = raw_class(&raws[i]);
+        st.count(&format!("ingest_kml_attempt_{class}"));
+        // a number inside the scale, or none at all, is what KML is documented to take
+        let must_accept = matches!(&raws[i], Raw::Absent) || matches!(&raws[i], Raw::Num(x) if (0.0..=1.0).contains(x));
+        let accepted = match exec(&fx.nx, &stmt, &Value::Object(p.clone())).await {
+            Ok(resp) => {
+                let j = response_json(&resp);
+                if j["status"] == "succeeded" {
+                    Some(j["results"][0]["result"]["handles"]["xk"].as_str().ok_or("no assertion handle")?.to_string())
+                } else if must_accept {
+                    return Err(format!("a KML write inside the scale was refused: {stmt} params={} -> {j}", Value::Object(p)));
+                } else {
+                    None
+                }
+            }
+            Err(e) if must_accept => return Err(format!("{stmt}: {e}")),
+            Err(_) => None,
+        };
+        st.count(&format!("ingest_kml_{}_{class}", if accepted.is_some() { "accepted" } else { "refused" }));
+        ids[i] = accepted;
+    }
+    for (i, a) in asrs.iter().enumerate() {
+        if a.life == Life::Retracted {
+            if let Some(id) = &ids[i] {
+                exec_ok(&fx.nx, "RETRACT ASSERTION :a", &json!({"a": id})).await?;
+            }
+        }
+    }
+    let (members, model, ids) = restricted(asrs, &ids);
+    Ok(Inst { path: "kml", variant, members, model, rec: Recorded { subject, props, ids }, answers: vec![] })
+}
+
+/// The same structure, `b` ingested with pointwise higher confidences than `a`.
+fn chain_law(a: &Inst, b: &Inst, case: u64, functional: bool, st: &mut Stats) {
+    if a.members != b.members {
+        st.count("ingest_chain_pairs_skipped_different_members");
+        return;
+    }
+    let mut rises = false;
+    for (x, y) in a.model.iter().zip(&b.model) {
+        match (x.conf, y.conf) {
+            (None, None) => {}
+            (Some(p), Some(q)) if p <= q => rises |= p < q,
+            _ => {
+                st.count("ingest_chain_pairs_skipped_not_pointwise_comparable");
+                return;
+            }
+        }
+    }
+    st.eval();
+    st.count("ingest_chain_pairs_compared");
+    let above = |i: &Inst| i.model.iter().any(|a| a.conf.map(|c| c > 1.0).unwrap_or(false));
+    if above(b) {
+        st.count("ingest_chain_pairs_reaching_above_one");
+    }
+    for (pa, pb) in a.answers.iter().zip(&b.answers) {
+        let (Some(pa), Some(pb)) = (pa, pb) else { continue };
+        let ctx = || json!({"case": case, "path": a.path, "variants": [a.variant, b.variant],
+            "lower": {"assertions": case_json(&a.model, functional), "scores": [pa.sup_score, pa.opp_score], "groups": [pa.sup_groups, pa.opp_groups], "status": pa.status},
+            "higher": {"assertions": case_json(&b.model, functional), "scores": [pb.sup_score, pb.opp_score], "groups": [pb.sup_groups, pb.opp_groups], "status": pb.status}});
+        if above(b) && (pb.sup_groups >= 2 || pb.opp_groups >= 2) {
+            st.count("ingest_chain_answers_above_one_with_two_or_more_groups");
+        }
+        if pa.sup != pb.sup || pa.opp != pb.opp || pa.unc != pb.unc || pa.sup_groups != pb.sup_groups || pa.opp_groups != pb.opp_groups {
+            st.violation("C20/ingest/ledger_or_grouping_changed_with_confidences_only", ctx());
+            continue;
+        }
+        if pb.sup_score < pa.sup_score - 1e-12 || pb.opp_score < pa.opp_score - 1e-12 {
+            st.violation("C20/ingest/score_fell_when_confidences_rose", ctx());
+        } else if !rises && ((pb.sup_score - pa.sup_score).abs() > 1e-12 || (pb.opp_score - pa.opp_score).abs() > 1e-12) {
+            st.violation("C20/ingest/score_changed_with_equal_confidences", ctx());
+        }
+    }
+}
+
+/// The same assertions (as read back) in two Spaces, by two paths.
+fn cross_path_law(a: &Inst, b: &Inst, case: u64, functional: bool, pol: &[PolicyDesc], st: &mut Stats) {
+    if a.members != b.members || a.model.iter().zip(&b.model).any(|(x, y)| x.conf != y.conf) {
+        st.count("ingest_cross_path_skipped_different_content");
+        return;
+    }
+    st.eval();
+    st.count("ingest_cross_path_compared");
+    for (qi, (pa, pb)) in a.answers.iter().zip(&b.answers).enumerate() {
+        let (Some(pa), Some(pb)) = (pa, pb) else { continue };
+        let near = [pa.sup_score, pa.opp_score, pb.sup_score, pb.opp_score].iter().any(|s| (s - pol[qi].accept).abs() < 1e-9 || (s - pol[qi].material).abs() < 1e-9);
+        let same = pa.sup == pb.sup && pa.opp == pb.opp && pa.unc == pb.unc && pa.sup_groups == pb.sup_groups && pa.opp_groups == pb.opp_groups
+            && (pa.sup_score - pb.sup_score).abs() <= 1e-9 && (pa.opp_score - pb.opp_score).abs() <= 1e-9
+            && (near || pa.status == pb.status) && pa.policy_id == pb.policy_id;
+        if !same {
+            st.violation("C20/ingest/same_assertions_project_differently_by_ingestion_path", json!({"case": case, "variant": a.variant, "paths": [a.path, b.path],
+                "assertions": case_json(&a.model, functional),
+                "answers": [{"scores": [pa.sup_score, pa.opp_score], "groups": [pa.sup_groups, pa.opp_groups], "status": pa.status, "support": format!("{:?}", pa.sup), "opposition": format!("{:?}", pa.opp)},
+                            {"scores": [pb.sup_score, pb.opp_score], "groups": [pb.sup_groups, pb.opp_groups], "status": pb.status, "support": format!("{:?}", pb.sup), "opposition": format!("{:?}", pb.opp)}]}));
+        }
+    }
+}
+
+fn ingest_case(case: u64, rng: &mut Rng, st: &mut Stats, thorough: bool) {
+    let (asrs, functional) = gen_ingest_structure(rng);
+    let len = if thorough { 4 } else { 3 };
+    let chains: Vec<Vec<Raw>> = asrs.iter().map(|_| gen_chain(rng, len)).collect();
+    let res = with_fixture(async |fx: &mut Fixture| {
+        let mut dest = match DEST.with(|c| c.borrow_mut().take()) {
+            Some(d) if d.1 < 400 => d,
+            _ => (fresh_nexus(&format!("c20_dest_{}", NEXUS_SERIAL.fetch_add(1, std::sync::atomic::Ordering::Relaxed))).await?, 0),
+        };
+        let out = ingest_inner(fx, &mut dest, case, &asrs, functional, &chains, rng, st).await;
+        if out.is_ok() {
+            DEST.with(|c| *c.borrow_mut() = Some(dest));
+        }
+        out
+    });
+    if let Err(e) = res {
+        st.inconclusive(format!("C20 ingest case {case}: {e}"));
+    }
+    st.sample(|| json!({"monitor": "ingest", "case": case, "structure": case_json(&asrs, functional), "confidence_chains": chains.iter().map(|c| format!("{c:?}")).collect::<Vec<_>>()}));
+}
+
+#[allow(clippy::too_many_arguments)]
+async fn ingest_inner(
+    fx: &mut Fixture,
+    dest: &mut (CognitiveNexus, usize),
+    case: u64,
+    asrs: &[Asr],
+    functional: bool,
+    chains: &[Vec<Raw>],
+    rng: &mut Rng,
+    st: &mut Stats,
+) -> Result<(), String> {
+    let n = asrs.len();
+    let len = chains[0].len();
+    // the source: the structure recorded through KML with a stand-in confidence, then exported
+    let stand_in: Vec<Asr> = asrs.iter().map(|a| Asr { conf: Some(0.5), ..a.clone() }).collect();
+    let mut order: Vec<usize> = (0..n).collect();
+    rng.shuffle(&mut order);
+    let batched = rng.bool();
+    let src = record(fx, &stand_in, functional, &order, batched, rng, st).await?;
+    let artifact = exec_ok(
+        &fx.nx,
+        &format!("EXPORT CAPSULE ?a WHERE {{ ?p PROPOSITION (:s, \"{}\", ?o) ?a ASSERTION {{proposition: ?p}} }}", pred(functional)),
+        &json!({"s": idref(&src.subject)}),
+    )
+    .await?;
+    st.count("ingest_exports");
+    let q0 = Query { at: None, spelling: 0, policy: PolicyReq::default(), form: 0 };
+    let mut q1 = gen_query(rng);
+    q1.at = None;
+    q1.form = if functional && rng.bool() { 3 } else { 1 + rng.below(2) as u8 };
+    let queries = [q0, q1];
+    let pols: Vec<PolicyDesc> = queries.iter().map(|q| expected_policy(fx, &q.policy)).collect();
+    let isolated_variant = rng.usize(len);
+    let mut by_path: BTreeMap<&'static str, Vec<Inst>> = BTreeMap::new();
+    for v in 0..len {
+        let raws: Vec<Raw> = (0..n).map(|i| chains[i][v].clone()).collect();
+        let mut here: Vec<Inst> = vec![];
+        for path in ["capsule", "isolated", "kml"] {
+            match path {
+                "isolated" if v != isolated_variant => continue,
+                "kml" if !rng.chance(2, 3) => continue,
+                _ => {}
+            }
+            if path == "kml" {
+                let mut inst = kml_variant(fx, asrs, functional, &raws, v, rng, st).await?;
+                evaluate_instance(&fx.nx, &fx.values, fx, &mut inst, functional, &queries, case, &raws, st).await?;
+                here.push(inst);
+            } else {
+                dest.1 += 1;
+                let tag = format!("case {case} variant {v} {path} #{}", dest.1);
+                if let Some((mut inst, values)) = import_variant(fx, &dest.0, &artifact, &src, asrs, &raws, path, v, &tag, st).await? {
+                    evaluate_instance(&dest.0, &values, fx, &mut inst, functional, &queries, case, &raws, st).await?;
+                    here.push(inst);
+                }
+            }
+        }
+        for i in 1..here.len() {
+            cross_path_law(&here[0], &here[i], case, functional, &pols, st);
+        }
+        for inst in here {
+            by_path.entry(inst.path).or_default().push(inst);
+        }
+    }
+    for insts in by_path.values() {
+        for w in insts.windows(2) {
+            chain_law(&w[0], &w[1], case, functional, st);
+        }
+    }
+    Ok(())
+}
+
+// ---------------------------------------------------------------------------------------------
+// section `migrate`: the third way in - a KIP 1.x database converted on the first 2.0 start
+//
+// A database in the 1.x layout (one row per subject/object pair, `metadata.confidence` whatever
+// the old deployment put there) is opened by the 2.0 engine; every legacy tuple becomes a
+// Proposition plus one imported Assertion. The legacy numbers come from the same palette as in
+// `ingest`. Judged: the laws on every projected belief, the reference over the assertions as the
+// Space reads them back, and - across the migrated Propositions, which all have the same shape -
+// a higher read-back confidence never gives a lower score.
+
+mod v1 {
+    use anda_db::schema::{AndaDBSchema, Json};
+    use serde::{Deserialize, Serialize};
+
+    /// The 1.x Concept row.
+    #[derive(Clone, Debug, Deserialize, Serialize, AndaDBSchema)]
+    pub struct V1Concept {
+        pub _id: u64,
+        #[field_type = "Text"]
+        pub r#type: String,
+        #[field_type = "Text"]
+        pub name: String,
+        #[field_type = "Json"]
+        pub attributes: Json,
+        #[field_type = "Json"]
+        pub metadata: Json,
+    }
+
+    /// The 1.x Proposition row: one subject, one object, a set of predicates.
+    #[derive(Clone, Debug, Deserialize, Serialize, AndaDBSchema)]
+    pub struct V1Proposition {
+        pub _id: u64,
+        #[field_type = "Text"]
+        pub subject: String,
+        #[field_type = "Text"]
+        pub object: String,
+        #[field_type = "Json"]
+        pub predicates: Json,
+        #[field_type = "Json"]
+        pub properties: Json,
+    }
+}
+
+const LEGACY_PREDICATE: &str = "vouches_v1";
+
+fn flush_stamp() -> u64 {
+    // only the timestamp a flush is labelled with
+    std::time::SystemTime::now().duration_since(std::time::UNIX_EPOCH).map(|d| d.as_millis() as u64).unwrap_or(1)
+}
+
+fn migrate_case(case: u64, rng: &mut Rng, st: &mut Stats) {
+    let n = 8 + rng.usize(8);
+    // (a JSON document cannot carry a token that is no finite number)
+    let raws: Vec<Raw> = (0..n).map(|_| gen_chain(rng, 1).remove(0)).map(|r| if matches!(r, Raw::Exotic(_)) { Raw::Num(1e308) } else { r }).collect();
+    let authors: Vec<Option<usize>> = (0..n).map(|_| if rng.chance(2, 3) { Some(rng.usize(2)) } else { None }).collect();
+    let res = vcore::run::block_on(migrate_inner(case, &raws, &authors, st));
+    if let Err(e) = res {
+        st.inconclusive(format!("C20 migrate case {case}: {e}"));
+    }
+    st.sample(|| json!({"monitor": "migrate", "case": case, "legacy_confidences": format!("{raws:?}")}));
+}
+
+async fn migrate_inner(case: u64, raws: &[Raw], authors: &[Option<usize>], st: &mut Stats) -> Result<(), String> {
+    use anda_db::{collection::CollectionConfig, database::{AndaDB, DBConfig}};
+    use anda_cognitive_nexus::schema::{PackageState, SchemaLock, SchemaPackage};
+    use std::sync::Arc;
+    let e = |what: &str, e: &dyn std::fmt::Debug| format!("{what}: {e:?}");
+    let name = format!("c20_v1_{case}_{}", NEXUS_SERIAL.fetch_add(1, std::sync::atomic::Ordering::Relaxed));
+    let store = Arc::new(object_store::memory::InMemory::new());
+    let config = || DBConfig { name: name.clone(), description: "a KIP 1.x database".to_string(), ..Default::default() };
+    {
+        let db = AndaDB::connect(store.clone(), config()).await.map_err(|x| e("AndaDB::connect", &x))?;
+        let concepts = db
+            .open_or_create_collection(
+                v1::V1Concept::schema().map_err(|x| e("1.x concept schema", &x))?,
+                CollectionConfig { name: "concepts".to_string(), description: "Concept nodes".to_string() },
+                async |c| {
+                    c.create_btree_index_nx(&["type"]).await?;
+                    c.create_btree_index_nx(&["name"]).await?;
+                    Ok(())
+                },
+            )
+            .await
+            .map_err(|x| e("1.x concepts", &x))?;
+        // ids 1, 2: the two authors; 3: the object; 4..: one subject per row
+        let mut rows = vec![("Person", "author0".to_string()), ("Person", "author1".to_string()), ("Status", "value".to_string())];
+        rows.extend((0..raws.len()).map(|i| ("Service", format!("subject{i}"))));
+        for (ty, nm) in rows {
+            concepts
+                .add_from(&v1::V1Concept { _id: 0, r#type: ty.to_string(), name: nm, attributes: json!({}), metadata: json!({}) })
+                .await
+                .map_err(|x| e("1.x concept row", &x))?;
+        }
+        concepts.flush(flush_stamp()).await.map_err(|x| e("flush", &x))?;
+        let propositions = db
+            .open_or_create_collection(
+                v1::V1Proposition::schema().map_err(|x| e("1.x proposition schema", &x))?,
+                CollectionConfig { name: "propositions".to_string(), description: "Proposition links".to_string() },
+                async |c| {
+                    c.create_btree_index_nx(&["subject"]).await?;
+                    Ok(())
+                },
+            )
+            .await
+            .map_err(|x| e("1.x propositions", &x))?;
+        for (i, raw) in raws.iter().enumerate() {
+            let mut metadata = Map::new();
+            match raw {
+                Raw::Absent => {}
+                Raw::Null => {
+                    metadata.insert("confidence".into(), Value::Null);
+                }
+                Raw::Num(x) => {
+                    metadata.insert("confidence".into(), json!(x));
+                }
+                Raw::Text => {
+                    metadata.insert("confidence".into(), json!("0.9"));
+                }
+                Raw::Bool => {
+                    metadata.insert("confidence".into(), json!(true));
+                }
+                Raw::Exotic(_) => {}
+            }
+            if let Some(a) = authors[i] {
+                metadata.insert("author".into(), json!(format!("author{a}")));
+            }
+            st.count(&format!("migrate_attempt_{}", raw_class(raw)));
+            propositions
+                .add_from(&v1::V1Proposition {
+                    _id: 0,
+                    subject: format!("C:{}", 4 + i),
+                    object: "C:3".to_string(),
+                    predicates: json!([LEGACY_PREDICATE]),
+                    properties: json!({LEGACY_PREDICATE: {"attributes": {}, "metadata": metadata}}),
+                })
+                .await
+                .map_err(|x| e("1.x proposition row", &x))?;
+        }
+        propositions.flush(flush_stamp()).await.map_err(|x| e("flush", &x))?;
+        db.close().await.map_err(|x| e("close", &x))?;
+    }
+    // the first 2.0 start over the same store
+    let db = AndaDB::connect(store, config()).await.map_err(|x| e("AndaDB::connect (2.0)", &x))?;
+    let nx = CognitiveNexus::connect(Arc::new(db)).await.map_err(|x| e("CognitiveNexus::connect over a 1.x layout", &x))?;
+    let pkg = SchemaPackage::parse(anda_cognitive_nexus::profiles::COGNITIVE_MEMORY).map_err(|x| e("package parse", &x))?;
+    nx.install_package(&pkg, "verif").await.map_err(|x| e("install_package", &x))?;
+    let mut lock = SchemaLock::default();
+    lock.packages.insert(PROFILE_ID.to_string(), "2.0.0".to_string());
+    lock.states.insert(PROFILE_ID.to_string(), PackageState::Active);
+    nx.ensure_schema(DEFAULT_SPACE, lock).await.map_err(|x| e("ensure_schema (runs the migration)", &x))?;
+    st.count("migrate_databases");
+    let baseline = describe_policy(&nx, "baseline").await?;
+
+    // what the Space holds now
+    let out = exec_ok(&nx, "FIND(?a.id, ?a.proposition_id, ?a.confidence, ?a.mode, ?a.stance, ?a.asserted_by.id) WHERE { ?a ASSERTION {} }", &Value::Null).await?;
+    let mut by_prop: BTreeMap<String, Vec<(String, Asr)>> = BTreeMap::new();
+    let mut actors: Vec<String> = vec![];
+    for row in out.as_array().ok_or("assertion scan is not an array")? {
+        let id = row[0].as_str().ok_or("assertion without id")?.to_string();
+        let prop = row[1].as_str().ok_or("assertion without proposition_id")?.to_string();
+        if !row[2].is_null() && row[2].as_f64().is_none() {
+            return Err(format!("the confidence of {id} reads back as {}", row[2]));
+        }
+        let mode = mode_index(&row[3]).ok_or_else(|| format!("unknown mode {}", row[3]))?;
+        let stance = match row[4].as_str() {
+            Some("support") => Stance::Support,
+            Some("reject") => Stance::Reject,
+            Some("uncertain") => Stance::Uncertain,
+            other => return Err(format!("unknown stance {other:?}")),
+        };
+        let actor = row[5].as_str().ok_or_else(|| format!("migrated assertion {id} names no assertor: {row}"))?.to_string();
+        let ai = match actors.iter().position(|a| *a == actor) {
+            Some(i) => i,
+            None => {
+                actors.push(actor);
+                actors.len() - 1
+            }
+        };
+        let asr = Asr { actor: Some(ai as u8), ev: 0, tgt: 0, stance, conf: row[2].as_f64(), mode, from: None, until: None, life: Life::Active, sugar: false, challenge: 0 };
+        st.count(match asr.conf {
+            None => "migrate_reads_back_none_stated",
+            Some(c) if c < 0.0 => "migrate_reads_back_negative",
+            Some(c) if c <= 1.0 => "migrate_reads_back_inside_the_scale",
+            Some(_) => "migrate_reads_back_above_one",
+        });
+        by_prop.entry(prop).or_default().push((id, asr));
+    }
+    if by_prop.len() != raws.len() {
+        return Err(format!("{} legacy tuples, {} migrated Propositions carry an Assertion", raws.len(), by_prop.len()));
+    }
+    let q = Query { at: None, spelling: 0, policy: PolicyReq::default(), form: 0 };
+    // (read-back confidence, support score) of the Propositions with one supporting assertion
+    let mut single: Vec<(f64, f64, String)> = vec![];
+    for (prop, list) in &by_prop {
+        let model: Vec<Asr> = list.iter().map(|(_, a)| a.clone()).collect();
+        let rec = Recorded { subject: String::new(), props: vec![Some(prop.clone()), None, None], ids: list.iter().map(|(i, _)| i.clone()).collect() };
+        let in_scale = model.iter().all(|a| a.conf.map(|c| (0.0..=1.0).contains(&c)).unwrap_or(true));
+        for (_, b) in ask_in(&nx, &[], &rec, false, &q, 0, None).await? {
+            let ctx = || json!({"case": case, "legacy_confidences": format!("{raws:?}"), "proposition": prop, "assertions_as_read_back": case_json(&model, false), "answer": b});
+            let a = match parse_answer(&b, &rec) {
+                Ok(a) => a,
+                Err(e) => {
+                    st.violation("C20/answer_malformed", json!({"error": e, "context": ctx()}));
+                    continue;
+                }
+            };
+            st.count("migrate_answers_judged");
+            laws(&a, &ctx, st);
+            judge_with(&a, &reference(&model, false, 0, None, &baseline), &q, &baseline.id, &baseline.version, &ctx, st, in_scale);
+            if let [one] = model.as_slice() {
+                if one.stance == Stance::Support && a.sup.len() == 1 {
+                    if let Some(c) = one.conf.filter(|c| *c >= 0.0) {
+                        single.push((c, a.sup_score, prop.clone()));
+                    }
+                }
+            }
+        }
+    }
+    single.sort_by(|a, b| a.0.partial_cmp(&b.0).unwrap());
+    for w in single.windows(2) {
+        st.eval();
+        st.count("migrate_monotone_pairs_compared");
+        if w[1].1 < w[0].1 - 1e-12 {
+            st.violation("C20/migrate/score_fell_when_confidence_rose", json!({"case": case, "lower": {"proposition": w[0].2, "confidence": w[0].0, "score": w[0].1},
+                "higher": {"proposition": w[1].2, "confidence": w[1].0, "score": w[1].1}}));
+        }
+    }
+    Ok(())
+}
+
 fn main() {
     let mut run = Run::from_args(
         "C20",
@@ -1601,6 +2824,9 @@ fn main() {
     run.assume("an eligible assertion with stance 'uncertain' and no side-taking assertion: both 'uncertain' and 'insufficient' are accepted");
     run.assume("exclusion reasons are compared by class (retracted / superseded / temporal / mode / visibility), any applicable class is accepted; ineligible assertions about RIVAL values may or may not be listed");
     run.assume("bounded-exhaustive tier enumerates multisets up to renaming of the 3 actors and the 3 evidence ids (the projection only compares them for equality)");
+    run.assume("reads AS OF a coordinate: the reference is built from the assertions about the subject's own Propositions recorded up to that commit, in the lifecycle state they had there (an ARCHIVE / RETRACT / SUPERSEDE committed later does not reach back); AS OF TIME is used only where the next commit carries a later millisecond timestamp; without FOR TIME the evaluation time is after the whole validity grid, at the coordinate as now");
+    run.assume("a confidence outside [0,1] has no score defined by the property: multisets holding one (only the Capsule import lets a number above 1 in; KML refuses it, the 1.x migration drops it) are judged by the laws only - scores within [0,1], never lower along a chain of pointwise rising read-back confidences, grouping / ledgers / exclusions equal to the reference, status consistent with the reported scores; a negative number is the engine's stored sentinel for 'none stated', reads back as null and is modelled as unstated; the confidence of an assertion is what `?a.confidence` reads back, not what the artifact carried");
+    run.assume("an isolated Capsule import contributes nothing to a projection before its elements are released (documented in capsule/merge.rs and nexus.rs); which values an ingestion path refuses is counted, not asserted - except that a number inside [0,1] or no number at all must be accepted");
     let t = run.tier;
     let thorough = t == vcore::Tier::Thorough;
     let (sr, su) = (Stance::Support, Stance::Reject);
@@ -1614,6 +2840,17 @@ fn main() {
         plan.extend([(&mid, 3, 0.2), (&conf, 3, 0.2), (&red, 3, 0.3), (&full, 3, 0.7), (&mid, 4, 0.5), (&small, 5, 0.5)]);
     } else {
         plan.extend([(&mid, 3, 0.5), (&conf, 3, 0.7)]);
+    }
+    // the small sections first (seconds in the quick tier, a bounded share of the thorough budget):
+    // the bounded-exhaustive plan and the randomized tier take whatever time is left
+    if run.wants("asof") {
+        run.parallel("asof", t.pick(64, 1500), 0.1, |c, rng, st| asof_case(c, rng, st, thorough));
+    }
+    if run.wants("ingest") {
+        run.parallel("ingest", t.pick(160, 1500), 0.1, |c, rng, st| ingest_case(c, rng, st, thorough));
+    }
+    if run.wants("migrate") {
+        run.parallel("migrate", t.pick(16, 200), 0.05, |c, rng, st| migrate_case(c, rng, st));
     }
     let mut complete = true;
     if run.wants("exhaustive") {
@@ -1676,5 +2913,40 @@ fn main() {
     run.floor("kml_assert_sugar", 100);
     run.floor("kml_create_assertion", 100);
     run.floor("exhaustive_arrangements", 1000);
+    // reads bound to a past coordinate
+    run.floor("asof_reads", 600);
+    for k in ["SEQ", "TX", "TOKEN"] {
+        run.floor(&format!("asof_reads_named_by_{k}"), 100);
+    }
+    // usable only where the next commit carries a later millisecond
+    run.floor("asof_reads_named_by_TIME", 30);
+    for f in 0..4 {
+        run.floor(&format!("asof_reads_query_form_{f}"), 100);
+    }
+    run.floor("asof_answers_with_assertions_about_other_subjects_in_the_space", 600);
+    run.floor("asof_never_asserted_answers_while_others_are_asserted", 300);
+    run.floor("asof_answers_where_the_subject_changed_afterwards", 400);
+    run.floor("asof_commits_lifecycle", 30);
+    // ingestion paths x confidences at and beyond the scale
+    run.floor("ingest_instances_capsule", 150);
+    run.floor("ingest_instances_isolated", 40);
+    run.floor("ingest_instances_kml", 100);
+    run.floor("ingest_isolated_read_before_release", 40);
+    run.floor("ingest_instances_with_confidence_outside_the_scale", 100);
+    run.floor("ingest_chain_pairs_compared", 100);
+    run.floor("ingest_chain_pairs_reaching_above_one", 60);
+    run.floor("ingest_chain_answers_above_one_with_two_or_more_groups", 40);
+    run.floor("ingest_cross_path_compared", 80);
+    for (class, min) in [("zero", 15), ("one", 40), ("just_above_one", 30), ("above_one", 80), ("huge", 3), ("negative", 30), ("absent", 20)] {
+        run.floor(&format!("ingest_capsule_attempt_{class}"), min);
+    }
+    run.floor("ingest_capsule_attempt_not_a_finite_number", 3);
+    run.floor("ingest_kml_attempt_above_one", 50);
+    run.floor("ingest_kml_attempt_just_above_one", 20);
+    run.floor("ingest_kml_attempt_negative", 20);
+    run.floor("migrate_databases", 5);
+    run.floor("migrate_answers_judged", 50);
+    run.floor("migrate_monotone_pairs_compared", 20);
+    run.floor("migrate_attempt_above_one", 8);
     run.finish();
 }
